@@ -29,7 +29,8 @@ LEVEL_TEXT = ("Kernel-checked: applying a legal add / remove / flip (guarded by 
               "the hill-climbing loop returns an acyclic graph from every acyclic start for every score table, option set and iteration bound; "
               "the chosen operation has the maximal delta; when the loop stops before max_iter every candidate delta is below epsilon; fixed edges "
               "are never lost and every new edge is white-listed and not black-listed; the reported delta is exactly score(after)-score(before) "
-              "for a decomposable score, so with epsilon >= 0 the score never decreases. The "
+              "for a decomposable score, so with epsilon >= 0 the score never decreases; with max_indegree = m a start "
+              "graph within the limit stays within it at every step. The "
               "implementation is tied by a white-box stream (table-driven StructureScore, identical final DAG required when deltas are "
               "tie-free) and by contract checks (lists, in-degree, monotone score, local optimum with tabu disabled); exhaustive search is "
               "compared with the model's maximum over all DAGs; Chow-Liu trees with the brute-force maximum spanning weight and the BFS "
